@@ -13,17 +13,21 @@ Proof.
   - cbn [app gtf_unescape]. apply orb_false_iff in E. destruct E as [E1 E2]. rewrite E1. now rewrite IH.
 Qed.
 
-(* the escaped text of a value without '"' contains no '"' *)
-Lemma gtf_escape_no_quote : forall v, ~ In 34 v -> ~ In 34 (gtf_escape v).
+Lemma gtf_escape_cons : forall c v,
+  gtf_escape (c :: v) = (if (c =? 92) || (c =? 34) then [92; c] else [c]) ++ gtf_escape v.
+Proof. reflexivity. Qed.
+
+(* the repaired parse_string finds the closing quote after ANY escaped value *)
+Theorem split_quote_escape : forall x rest,
+  split_quote false (gtf_escape x ++ 34 :: rest) = Some (gtf_escape x, rest).
 Proof.
-  induction v as [|c v IH]; intros H Hin; [exact Hin|].
-  unfold gtf_escape in *. cbn [flat_map] in Hin. apply in_app_or in Hin.
-  assert (Hc : c <> 34) by (intro E; apply H; now left).
-  destruct Hin as [Hin|Hin].
-  - destruct ((c =? 92) || (c =? 34)) eqn:E.
-    + destruct Hin as [E'|[E'|[]]]; [discriminate|congruence].
-    + destruct Hin as [E'|[]]. congruence.
-  - apply IH; [|exact Hin]. intro Hv. apply H. now right.
+  induction x as [|c x IH]; intro rest.
+  - cbn [gtf_escape flat_map app split_quote]. now rewrite N.eqb_refl.
+  - rewrite gtf_escape_cons. destruct ((c =? 92) || (c =? 34)) eqn:E.
+    + cbn [app split_quote]. change (92 =? 34) with false. change (92 =? 92) with true.
+      cbn iota. now rewrite IH.
+    + apply orb_false_iff in E. destruct E as [E1 E2].
+      cbn [app split_quote]. rewrite E2, E1. now rewrite IH.
 Qed.
 
 Definition key_ok (k : list N) : Prop := k <> [] /\ Forall (fun b => is_ascii_ws b = false) k.
@@ -33,31 +37,225 @@ Proof.
   intros k [_ H] Hin. rewrite Forall_forall in H. specialize (H 32 Hin). discriminate.
 Qed.
 
-(* one `key "value";` item is parsed back to (key, escaped value) and the terminator and the
-   following blanks are consumed -- for values without a double quote *)
-Theorem gtf_item_roundtrip : forall k x rest, key_ok k -> ~ In 34 x ->
+(* one `key 'value';` item is parsed back to (key, escaped value) and the terminator and the
+   following blanks are consumed -- for EVERY value (double quotes included) *)
+Theorem gtf_item_roundtrip : forall k x rest, key_ok k ->
   gtf_parse_field (gtf_item_text k x ++ rest) = Ok (k, gtf_escape x, consume_terminator (59 :: rest)).
 Proof.
-  intros k x rest Hk Hx. unfold gtf_parse_field, gtf_item_text.
+  intros k x rest Hk. unfold gtf_parse_field, gtf_item_text.
   rewrite <- app_assoc. cbn [app]. rewrite split_once_app by (now apply key_no_space).
   rewrite <- app_assoc. cbn [app].
-  rewrite split_once_app by (now apply gtf_escape_no_quote). reflexivity.
+  now rewrite split_quote_escape.
 Qed.
 
-(* the defect: a value with a double quote is cut at the escaped quote *)
-Theorem gtf_quote_refuted : exists k x,
-  key_ok k /\ gtf_attrs_parse (gtf_attrs_text [(k, VString x)]) = Err InvalidData.
+(* ---- the attribute column as a sequence of (key, item) pairs ---- *)
+Definition pair_text (p : list N * list N) : list N := gtf_item_text (fst p) (snd p).
+Definition pairs_text (ps : list (list N * list N)) : list N := join 32 (map pair_text ps).
+Definition push_pair (m : list (list N * value)) (p : list N * list N) := map_push m (fst p) (snd p).
+
+Lemma trim_start_key : forall k rest, key_ok k -> trim_start (k ++ rest) = k ++ rest.
 Proof.
-  exists [107], [97; 34; 98]. split; [|vm_compute; reflexivity].
-  split; [discriminate|]. repeat constructor.
+  intros [|b k] rest [Hne HF]; [contradiction|]. inversion HF as [|? ? Hb _]; subst.
+  cbn [app trim_start]. now rewrite Hb.
+Qed.
+
+Lemma item_text_shape : forall k x, gtf_item_text k x = k ++ (32 :: 34 :: gtf_escape x ++ [34; 59]).
+Proof. reflexivity. Qed.
+
+Lemma pairs_text_head : forall p ps, key_ok (fst p) ->
+  trim_start (pairs_text (p :: ps)) = pairs_text (p :: ps).
+Proof.
+  intros p ps Hk. destruct ps as [|q ps'].
+  - change (pairs_text [p]) with (fst p ++ (32 :: 34 :: gtf_escape (snd p) ++ [34; 59])).
+    now apply trim_start_key.
+  - change (pairs_text (p :: q :: ps'))
+      with ((fst p ++ (32 :: 34 :: gtf_escape (snd p) ++ [34; 59])) ++ 32 :: pairs_text (q :: ps')).
+    rewrite <- app_assoc. now apply trim_start_key.
+Qed.
+
+Lemma loop_step : forall f src k raw rest x m, src <> [] ->
+  gtf_parse_field src = Ok (k, raw, rest) -> gtf_unescape false raw = Some x ->
+  gtf_attrs_loop (S f) src m = gtf_attrs_loop f rest (map_push m k x).
+Proof.
+  intros f src k raw rest x m Hne Hp Hu. destruct src as [|b s]; [contradiction|].
+  cbn [gtf_attrs_loop]. now rewrite Hp, Hu.
+Qed.
+
+Lemma item_nonempty : forall k x rest, gtf_item_text k x ++ rest <> [].
+Proof.
+  intros k x rest E. rewrite item_text_shape in E. rewrite <- app_assoc in E.
+  apply app_eq_nil in E. destruct E as [_ E]. discriminate.
+Qed.
+
+(* the reader's loop over a written attribute column performs exactly the pushes of the written
+   (key, item) pairs, in order; the fuel of the wrapper is sufficient *)
+Theorem gtf_loop_pairs : forall ps fuel m, Forall (fun p => key_ok (fst p)) ps ->
+  (length (pairs_text ps) < fuel)%nat ->
+  gtf_attrs_loop fuel (pairs_text ps) m = Ok (fold_left push_pair ps m).
+Proof.
+  intros ps fuel m H. revert fuel m. induction H as [|p ps Hp Hps IH]; intros fuel m Hf.
+  - destruct fuel; [lia|]. reflexivity.
+  - destruct fuel as [|f]; [lia|]. destruct ps as [|q ps'].
+    + unfold pairs_text in *. cbn [map join] in *. unfold pair_text in *.
+      rewrite <- (app_nil_r (gtf_item_text (fst p) (snd p))).
+      rewrite (loop_step f _ (fst p) (gtf_escape (snd p)) (consume_terminator [59]) (snd p)).
+      * change (consume_terminator [59]) with (@nil N).
+        destruct f as [|f']; [|reflexivity].
+        rewrite item_text_shape, app_length in Hf. cbn [length] in Hf. lia.
+      * apply item_nonempty.
+      * now apply gtf_item_roundtrip.
+      * apply gtf_value_escape_roundtrip.
+    + assert (E : pairs_text (p :: q :: ps') = gtf_item_text (fst p) (snd p) ++ 32 :: pairs_text (q :: ps')) by reflexivity.
+      rewrite E in *.
+      rewrite (loop_step f _ (fst p) (gtf_escape (snd p))
+                 (consume_terminator (59 :: 32 :: pairs_text (q :: ps'))) (snd p)).
+      * assert (Ec : consume_terminator (59 :: 32 :: pairs_text (q :: ps')) = pairs_text (q :: ps')).
+        { unfold consume_terminator. cbn [trim_start]. change (is_ascii_ws 59) with false. cbn iota.
+          rewrite N.eqb_refl. cbn [trim_start]. change (is_ascii_ws 32) with true. cbn iota.
+          apply pairs_text_head. inversion Hps; assumption. }
+        rewrite Ec. cbn [fold_left]. apply IH.
+        rewrite app_length in Hf. cbn [length] in Hf. lia.
+      * apply item_nonempty.
+      * now apply gtf_item_roundtrip.
+      * apply gtf_value_escape_roundtrip.
+Qed.
+
+(* nested joins of the writer = one join over the pairs, when every attribute has >= 1 item *)
+Lemma join_nonempty : forall sep p ps, p <> [] -> join sep (p :: ps) <> [].
+Proof.
+  intros sep p ps H E. cbn [join] in E. destruct ps; [contradiction|].
+  apply app_eq_nil in E. destruct E as [E _]. contradiction.
+Qed.
+
+Lemma join_app : forall sep a b, a <> [] -> b <> [] ->
+  join sep (a ++ b) = join sep a ++ sep :: join sep b.
+Proof.
+  intros sep a b Ha Hb. induction a as [|p a IH]; [contradiction|].
+  destruct a as [|q a'].
+  - cbn [app join]. destruct b; [contradiction|reflexivity].
+  - assert (IH' : join sep (q :: a' ++ b) = join sep (q :: a') ++ sep :: join sep b)
+      by (apply IH; discriminate).
+    change ((p :: q :: a') ++ b) with (p :: q :: a' ++ b).
+    rewrite (join_cons2 sep p q (a' ++ b)), (join_cons2 sep p q a'), IH'.
+    now rewrite <- app_assoc.
+Qed.
+
+Definition attr_items_ok (kv : list N * value) : Prop := value_items (snd kv) <> [].
+
+Lemma field_text_pairs : forall kv,
+  gtf_field_text kv = pairs_text (map (fun x => (fst kv, x)) (value_items (snd kv))).
+Proof.
+  intro kv. unfold gtf_field_text, pairs_text. now rewrite map_map.
+Qed.
+
+Lemma attrs_text_pairs : forall a, Forall attr_items_ok a -> gtf_attrs_text a = pairs_text (gtf_pairs a).
+Proof.
+  intros a H. induction H as [|kv a Hkv Ha IH]; [reflexivity|].
+  unfold gtf_attrs_text in *. cbn [map]. unfold gtf_pairs in *. cbn [flat_map].
+  destruct a as [|kv' a'].
+  - cbn [map join flat_map]. rewrite app_nil_r. apply field_text_pairs.
+  - rewrite join_cons2. rewrite IH. rewrite field_text_pairs.
+    unfold pairs_text. rewrite map_app. rewrite join_app; [reflexivity| |].
+    + unfold attr_items_ok in Hkv. destruct (value_items (snd kv)); [contradiction|discriminate].
+    + inversion Ha as [|? ? Hkv' _]; subst. unfold attr_items_ok in Hkv'. cbn [flat_map].
+      destruct (value_items (snd kv')); [contradiction|discriminate].
+Qed.
+
+(* whole attribute column: what the reader builds is the fold of the pushes of the written pairs *)
+Theorem gtf_attrs_parse_pairs : forall a,
+  Forall (fun kv => key_ok (fst kv)) a -> Forall attr_items_ok a ->
+  gtf_attrs_parse (gtf_attrs_text a) = Ok (fold_left push_pair (gtf_pairs a) []).
+Proof.
+  intros a Hk Hi. unfold gtf_attrs_parse. rewrite attrs_text_pairs by exact Hi.
+  apply gtf_loop_pairs; [|lia].
+  unfold gtf_pairs. apply Forall_forall. intros p Hp. apply in_flat_map in Hp.
+  destruct Hp as (kv & Hkv & Hp). apply in_map_iff in Hp. destruct Hp as (x & E & _). subst p.
+  rewrite Forall_forall in Hk. now apply Hk.
+Qed.
+
+(* ---- regrouping: pushes of the pairs of distinct keys rebuild the attribute list ---- *)
+Definition gtf_canon_value (v : value) : value :=
+  match value_items v with
+  | [] => VString []
+  | [x] => VString x
+  | l => VArray l
+  end.
+Definition gtf_canon_attrs (a : list (list N * value)) : list (list N * value) :=
+  map (fun kv => (fst kv, gtf_canon_value (snd kv))) a.
+
+Lemma map_push_fresh : forall m k x, ~ In k (map fst m) -> map_push m k x = m ++ [(k, VString x)].
+Proof.
+  induction m as [|[k' v] m IH]; intros k x H; [reflexivity|]. cbn [map_push app].
+  rewrite bytes_eqb_neq by (intro E; apply H; left; exact E).
+  rewrite IH; [reflexivity|]. intro Hin. apply H. now right.
+Qed.
+
+Lemma map_push_last : forall m k v x, ~ In k (map fst m) ->
+  map_push (m ++ [(k, v)]) k x = m ++ [(k, value_push v x)].
+Proof.
+  induction m as [|[k' v'] m IH]; intros k v x H.
+  - cbn [app map_push]. now rewrite bytes_eqb_refl.
+  - cbn [app map_push]. rewrite bytes_eqb_neq by (intro E; apply H; left; exact E).
+    rewrite IH; [reflexivity|]. intro Hin. apply H. now right.
+Qed.
+
+Lemma push_items_array : forall k m l0 xs, ~ In k (map fst m) -> (2 <= length l0)%nat ->
+  fold_left push_pair (map (fun x => (k, x)) xs) (m ++ [(k, VArray l0)]) = m ++ [(k, VArray (l0 ++ xs))].
+Proof.
+  intros k m l0 xs Hk. revert l0. induction xs as [|x xs IH]; intros l0 Hl.
+  - cbn. now rewrite app_nil_r.
+  - cbn [map fold_left]. unfold push_pair at 2. cbn [fst snd]. rewrite map_push_last by exact Hk.
+    cbn [value_push]. rewrite IH by (rewrite app_length; cbn; lia). now rewrite <- app_assoc.
+Qed.
+
+Lemma push_items : forall k m xs, ~ In k (map fst m) -> xs <> [] ->
+  fold_left push_pair (map (fun x => (k, x)) xs) m = m ++ [(k, gtf_canon_value (VArray xs))].
+Proof.
+  intros k m xs Hk Hne. destruct xs as [|x [|y xs]]; [contradiction| |].
+  - cbn [map fold_left]. unfold push_pair. cbn [fst snd]. now rewrite map_push_fresh.
+  - cbn [map fold_left]. unfold push_pair at 2 3. cbn [fst snd]. rewrite map_push_fresh by exact Hk.
+    rewrite map_push_last by exact Hk. cbn [value_push].
+    rewrite push_items_array by (exact Hk || (cbn; lia)). reflexivity.
+Qed.
+
+Lemma canon_value_array : forall v, gtf_canon_value (VArray (value_items v)) = gtf_canon_value v.
+Proof. intros [s|l]; reflexivity. Qed.
+
+Theorem gtf_regroup : forall a m, NoDup (map fst m ++ map fst a) -> Forall attr_items_ok a ->
+  fold_left push_pair (gtf_pairs a) m = m ++ gtf_canon_attrs a.
+Proof.
+  induction a as [|kv a IH]; intros m Hnd Hi.
+  - cbn. now rewrite app_nil_r.
+  - inversion Hi as [|? ? Hkv Ha]; subst. unfold gtf_pairs in *. cbn [flat_map].
+    rewrite fold_left_app. cbn [map] in Hnd.
+    assert (Hfresh : ~ In (fst kv) (map fst m)).
+    { apply NoDup_remove_2 in Hnd. intro Hin. apply Hnd. apply in_or_app. now left. }
+    rewrite push_items by (exact Hfresh || exact Hkv). rewrite canon_value_array.
+    rewrite IH.
+    + rewrite <- app_assoc. reflexivity.
+    + rewrite map_app. cbn [map]. rewrite <- app_assoc. cbn [app].
+      apply NoDup_remove_1 in Hnd as Hnd1.
+      (* move the key from the middle to its place *)
+      assert (Hperm : NoDup (map fst m ++ fst kv :: map fst a)) by exact Hnd. exact Hperm.
+    + exact Ha.
+Qed.
+
+(* the whole attribute column, for ALL byte-string values (double quotes and backslashes
+   included), distinct non-blank keys, 1..k items each: multi-values keep their order *)
+Theorem gtf_attrs_roundtrip : forall a,
+  Forall (fun kv => key_ok (fst kv)) a -> Forall attr_items_ok a -> NoDup (map fst a) ->
+  gtf_attrs_parse (gtf_attrs_text a) = Ok (gtf_canon_attrs a).
+Proof.
+  intros a Hk Hi Hnd. rewrite gtf_attrs_parse_pairs by assumption.
+  now rewrite (gtf_regroup a []) by assumption.
 Qed.
 
 Definition gtf_demo : feature :=
   {| f_seqid := [99]; f_source := [46]; f_type := [103]; f_start := 7; f_end := 9; f_score := None;
      f_strand := SForward; f_phase := Some POne;
-     f_attrs := [([107], VArray [[97; 92; 98]; [59; 32]; [97; 92; 98]]); ([106], VString [])] |}.
+     f_attrs := [([107], VArray [[97; 92; 98]; [59; 32; 34]; [97; 34; 98]]); ([106], VString [34])] |}.
 
-(* non-vacuity / regression example: multi-valued attribute with backslashes, order kept *)
+(* non-vacuity / regression example: multi-valued attribute with backslashes and double quotes *)
 Example gtf_demo_roundtrip :
   match gtf_write (fun _ => []) gtf_demo with
   | Ok line => match gtf_read (fun _ => None) (line ++ [10]) with
@@ -68,14 +266,10 @@ Example gtf_demo_roundtrip :
   end.
 Proof. vm_compute. reflexivity. Qed.
 
-Example gtf_quote_owned_panics :
-  match gtf_write (fun _ => []) {| f_seqid := [99]; f_source := [46]; f_type := [103]; f_start := 1; f_end := 1;
-                                    f_score := None; f_strand := SNone; f_phase := None;
-                                    f_attrs := [([107], VString [97; 34; 98])] |} with
-  | Ok line => match gtf_read (fun _ => None) (line ++ [10]) with
-               | GRec l => gtf_owned l = Panic
-               | _ => False
-               end
+(* a malformed attribute column still panics the owning readers (attributes().unwrap()) *)
+Example gtf_malformed_owned_panics :
+  match gtf_read (fun _ => None) [99; 9; 46; 9; 103; 9; 49; 9; 49; 9; 46; 9; 46; 9; 46; 9; 107; 10] with
+  | GRec l => gtf_owned l = Panic /\ snd (l_attrs l) = Some (Err InvalidData)
   | _ => False
   end.
-Proof. vm_compute. reflexivity. Qed.
+Proof. vm_compute. split; reflexivity. Qed.
